@@ -67,6 +67,11 @@ def items(tier: str) -> List[Any]:
         if s not in seen:
             seen.add(s)
             out.append(("shuffle", s))
+    # soundness-only: multi-way branches consuming a tracked condition (or the tracked field itself)
+    for s in spaces.multiway(list(full) + [["txn GroupIndex"], ["global GroupSize"]]):
+        if s not in seen:
+            seen.add(s)
+            out.append(("shuffle", s))
     # soundness-only: loops that really iterate (counter conditions), incl. loops whose header is a
     # subroutine's entry label
     for s in spaces.counted_loops(small[:2] + [["global GroupSize", "int 2", "!="]], tier):
